@@ -13,13 +13,12 @@
   * `runQ`        — requests issued under `?`: stops at the first refused vertex
                     (`fill.rs::initialize_events`, every `add_stroke_vertex(..)?` of `stroke.rs`,
                     `basic_shapes.rs`).
-  * `runIgn`      — requests issued after an error has been latched (later refusals are ignored).
   * `tessellateImpl` — `FillTessellator::tessellate_impl` (= `tessellate*`, `FillBuilder::build`).
-  * `strokeRun`   — `StrokeBuilderImpl::{new, error, tessellate_fw, tessellate_with_ids_{fw,vw},
-                    end, build}`.
-  * `shapeRun`    — `basic_shapes::{fill_rectangle, fill_circle}` as they are: an error leaves
-                    through `?` and `abort_geometry` is never called.  `shapeRunFixed` is the
-                    repaired control flow (fixes/C04-basic-shapes-abort.patch).
+  * `strokeRun`   — `StrokeBuilderImpl::{new, error, step, fixed_width_step, tessellate_fw,
+                    tessellate_with_ids_{fw,vw}, end, build}` (after fix 4ae25521: nothing is
+                    issued once an error is latched).
+  * `shapeRun`    — `basic_shapes::{fill_rectangle, fill_circle}` (after fix 4b89a854: abort on
+                    error).
   * `rectScript`, `circleScript` — the concrete request sequences of the two fast paths.
 
   Mathlib-free.
@@ -59,17 +58,6 @@ def runQ {σ : Type} (S : Sink σ) : List CReq → σ → List Nat → RunOut σ
   | .t a b c :: r, s, ids =>
       let x := runQ S r (S.tri s (resolve ids a) (resolve ids b) (resolve ids c)) ids
       { x with calls := .tri (resolve ids a) (resolve ids b) (resolve ids c) :: x.calls }
-
-/-- Requests issued once an error is latched: refusals change nothing further. -/
-def runIgn {σ : Type} (S : Sink σ) : List CReq → σ → List Nat → σ × List Call
-  | [], s, _ => (s, [])
-  | .v p :: r, s, ids =>
-      match S.vertex s p with
-      | (s', .ok i) => let x := runIgn S r s' (ids ++ [i]); (x.1, .vertex (.ok i) :: x.2)
-      | (s', .error e) => let x := runIgn S r s' ids; (x.1, .vertex (.error e) :: x.2)
-  | .t a b c :: r, s, ids =>
-      let x := runIgn S r (S.tri s (resolve ids a) (resolve ids b) (resolve ids c)) ids
-      (x.1, .tri (resolve ids a) (resolve ids b) (resolve ids c) :: x.2)
 
 /-- What a tessellation call leaves behind. -/
 structure Outcome (σ : Type) where
@@ -122,33 +110,28 @@ structure StrokeOutcome (σ : Type) where
   result : Option TErr
   pulled : Nat
 
-/-- The stroke tessellator seen from the builder.
-`StrokeBuilderImpl::new` calls `begin_geometry`; events issue requests; the first refusal is
-latched (`error()` keeps the first); what the core does between that moment and the terminator
-— the remaining flattening steps of the same curve event in `tessellate*`, *all* remaining events
-when driven through `StrokeBuilder` (which only looks at the latch in `build`) — is the arbitrary
-sequence `post`, executed with refusals ignored; then `abort_geometry` and `Err(first error)`.
-Without a refusal: `end_geometry`, `Ok`. -/
-def strokeRun {σ : Type} (S : Sink σ) (events : List (List CReq)) (post : List CReq) (s : σ) :
-    StrokeOutcome σ :=
+/-- The stroke tessellator seen from the builder (as repaired by lyon commit 4ae25521).
+`StrokeBuilderImpl::new` calls `begin_geometry`; events issue requests under `?`; the first refusal
+is latched (`error()` keeps the first) and from then on `step`, `fixed_width_step` and `end` return
+before touching the builder — so neither the remaining flattening steps of the same curve event
+(`tessellate*`) nor the later events pushed through `StrokeBuilder` (which only looks at the latch
+in `build`) issue anything: the next builder call is `abort_geometry`, and `Err(first error)` is
+returned.  Without a refusal: `end_geometry`, `Ok`.
+(`pulled`: events consumed by the `for evt in input` loop of `tessellate*`.) -/
+def strokeRun {σ : Type} (S : Sink σ) (events : List (List CReq)) (s : σ) : StrokeOutcome σ :=
   let x := strokeEvents S events (S.begin s) []
   match x.err with
   | none => ⟨S.endG x.st, .begin :: x.calls ++ [.endG], none, x.pulled⟩
-  | some e =>
-    let y := runIgn S post x.st x.ids
-    ⟨S.abort y.1, .begin :: x.calls ++ y.2 ++ [.abort], some (.geometryBuilder e), x.pulled⟩
+  | some e => ⟨S.abort x.st, .begin :: x.calls ++ [.abort], some (.geometryBuilder e), x.pulled⟩
 
-/-- `basic_shapes::fill_rectangle` / `fill_circle` as written: `begin_geometry`, requests under
-`?` — which *returns from the function* — and `end_geometry` on the success path only. -/
+/-- `basic_shapes::fill_rectangle` / `fill_circle` (as repaired by lyon commit 4b89a854):
+`begin_geometry`, the requests of `fill_*_impl` under `?`; on `Err` `abort_geometry` and the error,
+otherwise `end_geometry` and `Ok`. -/
 def shapeRun {σ : Type} (S : Sink σ) (script : List CReq) (s : σ) : Outcome σ :=
   let x := runQ S script (S.begin s) []
   match x.err with
-  | some e => ⟨x.st, .begin :: x.calls, some (.geometryBuilder e)⟩
+  | some e => ⟨S.abort x.st, .begin :: x.calls ++ [.abort], some (.geometryBuilder e)⟩
   | none => ⟨S.endG x.st, .begin :: x.calls ++ [.endG], none⟩
-
-/-- The repaired control flow: abort before returning the error. -/
-def shapeRunFixed {σ : Type} (S : Sink σ) (script : List CReq) (s : σ) : Outcome σ :=
-  tessellateImpl S true script none s
 
 /-- `fill_rectangle`: four vertices, two triangles. -/
 def rectScript : List CReq := [.v 0, .v 1, .v 2, .v 3, .t 0 1 2, .t 0 2 3]
